@@ -5,7 +5,7 @@
 # result (110 pass, only mul_rk fails), (3) the demonstration fails with the patch.
 set -u
 SD=$(readlink -f "$1")
-NAME=$(basename "$(dirname "$SD")")-$(basename "$SD")
+NAME=$(echo "$SD" | tr "/" "_")
 W=/tmp/seedverify/$NAME
 rm -rf "$W"; mkdir -p "$W"
 rsync -a --exclude target --exclude .git /repo/ "$W/repo/"
@@ -16,11 +16,14 @@ CMD=$(python3 -c "import json;print(json.load(open('$SD/meta.json'))['demo_cmd']
 CMD=$(echo "$CMD" | sed -e 's#cd /tmp/seed/[A-Za-z0-9]* *&& *##' -e 's#CARGO_NET_OFFLINE=true ##')
 echo "demo_cmd: $CMD"
 timeout 1500 bash -c "$CMD" > "$W/demo_without.log" 2>&1; r1=$?
+# the suite is run without the demonstration files present
+if [ -d "$SD/demo" ]; then (cd "$SD/demo" && find . -type f) | while read f; do rm -f "./$f"; done; fi
 patch -p1 -s < "$SD/patch.diff" || { echo "$NAME: patch does not apply"; exit 3; }
 FEAT=""; echo "$CMD" | grep -q 'features dates' && FEAT="--features dates"
 timeout 3000 cargo test --workspace --no-fail-fast --offline $FEAT > "$W/suite.log" 2>&1
 pass=$(grep -E '^test .* \.\.\. ok$' "$W/suite.log" | grep -vc seeded_)
 failed=$(grep -E '^test .* \.\.\. FAILED$' "$W/suite.log" | grep -v seeded_ | sed 's/^test \(.*\) \.\.\. FAILED/\1/' | tr '\n' ' ')
+[ -d "$SD/demo" ] && cp -r "$SD/demo/." .
 timeout 1500 bash -c "$CMD" > "$W/demo_with.log" 2>&1; r2=$?
 echo "$NAME demo_without_rc=$r1 demo_with_rc=$r2 suite_pass=$pass suite_failed=[$failed]"
 if [ "$r1" = 0 ] && [ "$r2" != 0 ] && [ "$failed" = "mul_rk " ]; then echo "$NAME VERIFIED"; rc=0; else echo "$NAME NOT-VERIFIED"; tail -20 "$W/demo_without.log" "$W/demo_with.log"; rc=1; fi
